@@ -29,7 +29,7 @@ ASSUMPTIONS = [
     "Auer: default (non-empirical) schedule only, noise variance <= 1",
 ]
 N = {"quick": 48, "thorough": 480}
-REQUIRE = {"quick": {"configs": 300, "variants_seen": 8, "modeling_path_checked": 200, "monotone_samples": 5000}}
+REQUIRE = {"quick": {"configs": 300, "variants_seen": 8, "modeling_path_checked": 200, "monotone_samples": 5000, "correlated_posterior_configs": 100}}
 TIMEOUT = {"quick": 1200, "thorough": 5400}
 VARIANTS = ["PaVeBa", "PaVeBaGP-IH", "PaVeBaGP-DE", "PaVeBaPartialGP-rect", "PaVeBaPartialGP-ell", "VOGP", "EpsilonPAL", "Auer"]
 KMAX = 401
@@ -122,7 +122,9 @@ def config(mon, rng, variant, tier):
     noise_var = float(10 ** rng.uniform(-4, 0 if variant == "Auer" else 2))
     if variant == "Auer" and rng.random() < 0.3:
         noise_var = 1.0
-    if variant in ("PaVeBaGP-DE", "PaVeBaPartialGP-ell"):
+    if variant in ("PaVeBaGP-DE", "PaVeBaPartialGP-ell") or (variant in ("VOGP", "PaVeBaGP-IH", "EpsilonPAL", "PaVeBaPartialGP-rect") and rng.random() < 0.5):
+        # a correlated posterior: the ellipsoid uses all of it, the rectangle must extend scale*sqrt(diagonal)
+        mon.count("correlated_posterior_configs")
         Q = np.linalg.qr(rng.normal(size=(m, m)))[0]
         post_cov = Q @ np.diag(10 ** rng.uniform(-6, 2, size=m)) @ Q.T
         post_cov = (post_cov + post_cov.T) / 2
